@@ -683,3 +683,11 @@ PROPS["C19"]["explanation"] += (" System level (Props/SysPersist.lean): the API-
                                 "for Map<K,Orswot> even causal delivery does not suffice (nested_causal_restart_unavailable: a nested remove parked after a key reset – recorded as KF-C19-serde-json-nested-deferred-causal, replayed on the crate); "
                                 "for List always (list_restart_available).")
 PROPS["C19"]["statement_coverage"] += "; persistence inside the system models proved (runP_iff_run) with availability characterised exactly (canRestart_iff / runC_restart_available / counterexamples)"
+
+# --------------------------------------------------------------------------------------------
+# corpus (run FIRST): the crate's own Orswot test scenarios ported to scripts, the witness of the repaired defect F11
+# --------------------------------------------------------------------------------------------
+_CORPUS_ORSWOT = dict(name="repo_orswot_tests.txt", corpus=True, quick=1, thorough=1)
+for _pid in ("C01", "C02", "C03", "C04", "C07", "C08", "C09", "C20"):
+    PROPS[_pid]["profiles"] = [_CORPUS_ORSWOT] + PROPS[_pid]["profiles"]
+PROPS["C18"]["profiles"] = [dict(name="c18_f11_collision.txt", corpus=True, quick=1, thorough=1)] + PROPS["C18"]["profiles"]
